@@ -578,11 +578,11 @@ Proof.
 Qed.
 
 (* ---------- reference<T> ---------- *)
-Lemma x_new_ok s d : Good s -> d < NSLOT -> exists s' t, x_new s d = Ok (s', t) /\ Good s' /\ same_kinds s s'.
+Lemma x_new_ok s k d : Good s -> d < NSLOT -> exists s' t, x_new s k d = Ok (s', t) /\ Good s' /\ same_kinds s s'.
 Proof.
   intros [I P] Hd. unfold x_new.
-  destruct (m_new_ok s KCxx None I) as (I1 & K1 & H1 & P1 & V1 & _); [discriminate|].
-  destruct (m_new s KCxx None) as [s1 n]. cbn [fst snd] in *. subst n.
+  destruct (m_new_ok s k None I) as (I1 & K1 & H1 & P1 & V1 & _); [discriminate|].
+  destruct (m_new s k None) as [s1 n]. cbn [fst snd] in *. subst n.
   destruct (replace_ok s1 d (Some (length (objs s))) I1 Hd) as (s3 & E3 & I4 & K4 & H4 & P4).
   { intros o Ho. inversion Ho; subst. rewrite P1. left. reflexivity. }
   destruct (m_take s1 d) as [s2 old]. cbn [fst snd] in E3. rewrite E3. cbn [bind].
@@ -640,4 +640,13 @@ Proof.
   { intros o Ho. rewrite P1, Ho. left. reflexivity. }
   eexists _, _. split; [reflexivity|]. split; [|eapply same_kinds_trans; eassumption].
   split; [assumption|]. rewrite P4, P1. rewrite <- (app_nil_r (o2l v)). apply rm_opt_o2l.
+Qed.
+
+Lemma x_clone_ok s o d si : Good s -> slot s si = Some o -> slot s d = None -> d < NSLOT ->
+  exists s' t, x_clone s o d = Ok (s', t) /\ Good s' /\ same_kinds s s'.
+Proof.
+  intros G S Hs Hd. pose proof G as [I P]. unfold x_clone.
+  destruct (inv_live s o I (H3_slot s si o S)) as (x & E & D). rewrite (live_ok s o x E D). cbn [bind].
+  destruct (new_put_ok s (okind x) None d I P Hs Hd) as (G1 & K1 & _); [discriminate|].
+  destruct (m_new s (okind x) None) as [s1 id]. cbn [fst snd] in *. eexists _, _. split; [reflexivity|]. auto.
 Qed.
